@@ -307,13 +307,14 @@ package objects
 //@   ensures[frame] forall t Key :: rv(sn.allocatedResource, t) == old(rv(sn.allocatedResource, t)) && rv(sn.occupiedResource, t) == old(rv(sn.occupiedResource, t))
 
 //@ func (sn *Node) SetOccupiedResource(occupiedResource *resources.Resource)
-//@   props C01
+//@   props C01 C19
 //@   holds inv(sn)
 //@   requires okR(occupiedResource) && sepN(sn, occupiedResource) && mag(occupiedResource)
 //@   assigns sn.occupiedResource, sn.availableResource
 //@   ensures inv(sn)
 //@   ensures[occupied] forall t Key :: rv(sn.occupiedResource, t) == rv(occupiedResource, t)
 //@   ensures[frame] forall t Key :: rv(sn.allocatedResource, t) == old(rv(sn.allocatedResource, t)) && rv(sn.totalResource, t) == old(rv(sn.totalResource, t))
+//@   ensures[notified:C19] ncalls(objects.Node.notifyListeners) == 1
 
 //@ func (sn *Node) RemoveAllocation(allocationKey string) (removed *Allocation)
 //@   props C01 C03
@@ -329,7 +330,7 @@ package objects
 
 // placeholder swap on the same node: usage moves by delta, the identity holds
 //@ func (sn *Node) ReplaceAllocation(allocationKey string, replace *Allocation, delta *resources.Resource)
-//@   props C01 C06
+//@   props C01 C06 C19
 //@   mode nopanic=off
 //@   holds inv(sn)
 //@   holds sepN(sn, delta) && mag2(delta)
@@ -337,6 +338,7 @@ package objects
 //@   ensures inv(sn)
 //@   ensures[booked] forall t Key :: rv(sn.allocatedResource, t) == old(rv(sn.allocatedResource, t)) + rv(delta, t) && rv(sn.availableResource, t) == old(rv(sn.availableResource, t)) - rv(delta, t)
 //@   ensures[swapped] sn.allocations[replace.allocationKey] == replace && (allocationKey != replace.allocationKey ==> !(allocationKey in sn.allocations))
+//@   ensures[notified:C19] ncalls(objects.Node.notifyListeners) == 1
 
 //@ func (sn *Node) UpdateForeignAllocation(alloc *Allocation) (prev *Allocation)
 //@   props C01 C12
@@ -770,12 +772,15 @@ package objects
 // a resize of an ask/allocation moves exactly one ledger by the difference: pending for an outstanding ask, the total
 // the allocation is booked into (placeholder or real) for a bound one, and the queue chain / user by the same delta
 //@ func (sa *Application) UpdateAllocationResources(alloc *Allocation, isQuotaPreemptionEnabled bool) (err error)
-//@   props C03
+//@   props C03 C05
 //@   mode nopanic=off
 //@   ensures[boundreal] err == nil && old(sa.requests[alloc.allocationKey]) != nil && old(sa.requests[alloc.allocationKey].allocated) && !old(sa.requests[alloc.allocationKey].placeholder) ==> (forall t Key :: rv(sa.allocatedResource, t) == clamp64(old(rv(sa.allocatedResource, t)) + clamp64(rv(alloc.allocatedResource, t) - old(rv(sa.requests[alloc.allocationKey].allocatedResource, t)))))
 //@   ensures[boundph] err == nil && old(sa.requests[alloc.allocationKey]) != nil && old(sa.requests[alloc.allocationKey].allocated) && old(sa.requests[alloc.allocationKey].placeholder) ==> (forall t Key :: rv(sa.allocatedPlaceholder, t) == clamp64(old(rv(sa.allocatedPlaceholder, t)) + clamp64(rv(alloc.allocatedResource, t) - old(rv(sa.requests[alloc.allocationKey].allocatedResource, t))))) && (forall t Key :: rv(sa.allocatedResource, t) == old(rv(sa.allocatedResource, t)))
 //@   ensures[outstanding] err == nil && old(sa.requests[alloc.allocationKey]) != nil && !old(sa.requests[alloc.allocationKey].allocated) ==> (forall t Key :: rv(sa.pending, t) == clamp64(old(rv(sa.pending, t)) + clamp64(rv(alloc.allocatedResource, t) - old(rv(sa.requests[alloc.allocationKey].allocatedResource, t)))))
 //@   ensures[refused] err != nil ==> sa.pending == old(sa.pending) && sa.allocatedResource == old(sa.allocatedResource) && sa.allocatedPlaceholder == old(sa.allocatedPlaceholder)
+//@   at[usercharged:C05,C03] call objects.Application.incUserResourceUsage#1: assert arg0 == sa && arg1 == delta
+//@   at[queuecharged:C03] call objects.Queue.IncAllocatedResource#1: assert arg0 == sa.queue && arg1 == delta
+//@   ensures[userfollows:C05,C03] err == nil && old(sa.requests[alloc.allocationKey]) != nil && old(sa.requests[alloc.allocationKey].allocated) && (exists t Key :: rv(alloc.allocatedResource, t) != old(rv(sa.requests[alloc.allocationKey].allocatedResource, t))) ==> ncalls(objects.Application.incUserResourceUsage) == 1 && ncalls(objects.Queue.IncAllocatedResource) == 1
 
 // removing everything: the user is credited with exactly what the application still holds (real + placeholder),
 // both totals return to zero and nothing stays listed
@@ -1425,3 +1430,19 @@ package objects
 //@   at[parsedresult] call policies.PreemptionPolicyFromString#1 after: assume (ret1 == nil && ret0 == policies.DisabledPreemptionPolicy) <==> isdisabledvalue(value)
 //@   ensures[propagates] key == configs.PreemptionPolicy && isdisabledvalue(value) ==> v == value
 //@   ensures[asked] key == configs.PreemptionPolicy ==> ncalls(policies.PreemptionPolicyFromString) == 1
+
+// recovery registers the reported allocation as an ask of the application (so that later releases and resizes find it)
+//@ func (sa *Application) RecoverAllocationAsk(alloc *Allocation)
+//@   props C12
+//@   sweep
+//@   mode nopanic=off
+//@   at[listed] call objects.Application.addAllocationAskInternal#1: assert arg0 == sa && arg1 == alloc && alloc != nil
+//@   ensures[registered] alloc != nil ==> ncalls(objects.Application.addAllocationAskInternal) == 1
+
+// node iteration reflects current utilisation and schedulability: the node collection is told about the change
+//@ func (sn *Node) SetSchedulable(schedulable bool)
+//@   props C19 C01
+//@   sweep
+//@   mode nopanic=off
+//@   ensures[set] sn.schedulable == schedulable
+//@   ensures[notified] ncalls(objects.Node.notifyListeners) == 1
